@@ -464,7 +464,7 @@ func init() {
 		Extra: extraC02})
 	register(&Property{ID: "C03", Gen: genC03, Replay: replayHist,
 		Rule:  "histories with 1..4 binlog files, one in five relocated to offsets beyond 2^31 / close to 2^32 (bias), one in six started at the empty file name (oldest binlog); label chain checked; every delivered end label used as the start of a fresh parse (and, stream level, a fresh Stream) whose deliveries must equal the remaining expected transactions with identical labels. Non-trivial: >= 3 units",
-		Extra: func(c *Collector, r *RNG, tier string) { extraStreamC03(c, r, tier) }})
+		Extra: func(c *Collector, r *RNG, tier string) { extraStreamC03(c, r, tier); editingHandler(c, r, tier) }})
 	register(&Property{ID: "C04", Gen: genC04, Replay: replayHist,
 		Rule:  "histories x 1..3 failed attempts (handler error at call j, mapper error, mapper with more/fewer columns, stream closed at packet i, cancel at packet i, invalid / RAND / INTVAR / ROWS_QUERY event or a gate-passing event of a handled type with a truncated body (ROTATE, QUERY, FDE, TABLE_MAP, rows, XID; kept when the model predicts a clean error) injected at packet i; stream level also: attempts refused / failing in the handshake / in the checksum query / reset after it) then a clean attempt; large offsets and the empty start file name as in C03; after every attempt: accepted list is a prefix of the committed list, kept position is a log boundary from which exactly the rest is served; finally accepted == committed. Non-trivial: every case",
 		Extra: func(c *Collector, r *RNG, tier string) { extraStreamC04(c, r, tier) }})
